@@ -25,9 +25,9 @@ type c05Case struct {
 	props    []c05Prop
 	fmKeys   []string // front-matter keys of the component
 	required []string
-	wrapped  bool   // component wrapped in <template :required=…>
-	tagForm  bool   // use the registered shorthand tag instead of <template include>
-	times    int    // how many times the component is included
+	wrapped  bool // component wrapped in <template :required=…>
+	tagForm  bool // use the registered shorthand tag instead of <template include>
+	times    int  // how many times the component is included
 }
 
 var c05Names = []string{"a", "b", "outerv", "fmk"}
@@ -234,9 +234,9 @@ func runC05(r *Run, replay *Case) {
 	}
 	// nested includes: props do not leak across levels
 	files := map[string]string{
-		"p.vuego":     `<template include="o.vuego" x="PX"></template><i>«p:x={{ x }} y={{ y }}»</i>`,
-		"o.vuego":     `<i>«o1:x={{ x }} y={{ y }}»</i><template include="n.vuego" y="OY" :x="x"></template><i>«o2:x={{ x }} y={{ y }}»</i>`,
-		"n.vuego":     "---\nx: NX\n---\n<i>«n:x={{ x }} y={{ y }}»</i>",
+		"p.vuego": `<template include="o.vuego" x="PX"></template><i>«p:x={{ x }} y={{ y }}»</i>`,
+		"o.vuego": `<i>«o1:x={{ x }} y={{ y }}»</i><template include="n.vuego" y="OY" :x="x"></template><i>«o2:x={{ x }} y={{ y }}»</i>`,
+		"n.vuego": "---\nx: NX\n---\n<i>«n:x={{ x }} y={{ y }}»</i>",
 	}
 	res := renderPage(files, "p.vuego", map[string]any{})
 	var got []string
